@@ -725,19 +725,58 @@ def _cmp_switches(b):
 
 def _guarded_by_runlength(b, blk):
     cfg = b.cfg
+    nparams = len(b.param_tys)
     for sb, t_succ, f_succ, op, a, c in _cmp_switches(b):
-        if op != "Gt" or c.get("k") != "const" or not isinstance(c.get("int"), int) or c["int"] < 1:
-            continue
-        if a.get("k") not in ("copy", "move"):
+        if op != "Gt" or a.get("k") not in ("copy", "move"):
             continue
         if not (cfg.dominates(sb, blk) and only_reachable_via(cfg, sb, f_succ, blk)):
             continue
-        # the compared local is (a copy of) a run length obtained from get_seg_length_at
-        l = a["pl"]["l"]
-        srcs = _all_defs(b, l)
-        if any(x == "get_seg_length_at" for x in srcs):
-            return True
+        if c.get("k") == "const" and isinstance(c.get("int"), int) and c["int"] >= 1:
+            # the compared local is (a copy of) a run length obtained from get_seg_length_at
+            srcs = _all_defs(b, a["pl"]["l"])
+            if any(x == "get_seg_length_at" for x in srcs):
+                return True
+            continue
+        # a helper: `while *len > target` with both the run length and the target handed in by the callers
+        if c.get("k") in ("copy", "move") and not c["pl"]["p"]:
+            pc = _param_root(b, c["pl"]["l"])
+            pa = _param_root(b, a["pl"]["l"])
+            if pc is None or pa is None or not (1 <= pc <= nparams and 1 <= pa <= nparams):
+                continue
+            sites = [(cb, t) for cb in b.unit.bodies if not cb.in_test_mod() for _, t in cb.calls() if (callee_path(t) or "") == b.path]
+            if not sites:
+                continue
+            ok = True
+            for cb, t in sites:
+                ac, aa = t["args"][pc - 1], t["args"][pa - 1]
+                cv = const_of(cb, ac)
+                if not (cv and isinstance(cv.get("int"), int) and cv["int"] >= 1):
+                    ok = False
+                    break
+                if aa.get("k") not in ("copy", "move"):
+                    ok = False
+                    break
+                root = _param_root(cb, aa["pl"]["l"], through_refs=True)
+                if root is None or not any(x == "get_seg_length_at" for x in _all_defs(cb, root)):
+                    ok = False
+                    break
+            if ok:
+                return True
     return False
+
+
+def _param_root(b, l, depth=0, through_refs=False):
+    """follow copies / derefs / (optionally) `&mut x` back to the local they started from"""
+    if depth > 8:
+        return l
+    d = _single_def(b, l)
+    if d is None:
+        return l
+    if d.get("k") == "use" and d["op"].get("k") in ("copy", "move"):
+        return _param_root(b, d["op"]["pl"]["l"], depth + 1, through_refs)
+    if d.get("k") == "ref" and (through_refs or (d["pl"]["p"] and d["pl"]["p"][0] == "*")):
+        return _param_root(b, d["pl"]["l"], depth + 1, through_refs)
+    return l
 
 
 def _all_defs(b, l, depth=0, seen=None):
